@@ -123,7 +123,7 @@ def C12():
         trusted_base=[SOLVERS, ENGINE, "stdlib: filtering comprehension, sorted(key=), list.index as functions of the input list with their defining axioms (DESIGN 1.7)"],
         assumptions=["collect_document_colors coverage of every emitted colour attribute and font-table references are not yet under contract in this check"],
         replayers={"services/color_service.py::ColorService": R.replay_color_index, "lemma::c12": R.replay_color_index,
-                   "encoding/unified_encoder.py::UnifiedRTFEncoder.encode": R.replay_purity},
+                   "encoding/unified_encoder.py::UnifiedRTFEncoder.encode": R.replay_purity, "table::colour_collection": R.replay_colour_collection},
         design_ref="4/C12, A17",
     )
 
